@@ -294,8 +294,15 @@ def teardown_verifies_all(chk, F, rule, cfg, fn, paths):
                     break
             names = L.pipeline_calls(src, lambda y: y[0] == 'ref' and y[1][1][-1:] == (('f', 'fn_mockers'),)) if src else None
             ok = names is not None and not any(L.ORDER_DENY.search(n) for n in names) and all(re.search(r'(Iterator>?::next|IntoIterator( for [^>]*)?>?::into_iter|::iter|::values|Deref>?::deref)$', n) for n in names)
-            errs = strip(e.data[2][1])
-            chk.ob(rule, 'every method of the mock is verified (complete traversal of fn_mockers) into one error vector', ok and errs[0] == 'ref' and errs[1][0][0] == 'local', config=cfg, fn=fn, site='verify-all',
+            errs = strip(e.data[2][1]) if len(e.data[2]) > 1 else ('unk', 'no error vector argument')
+            into_one = errs[0] == 'ref' and errs[1][0][0] == 'local'
+            if len(e.data[2]) == 1:
+                # (verify() handing its errors back: they count if every call's result is appended to one vector)
+                res = ('call', e.data[1], e.data[2], e.data[3])
+                app = [a_ for a_ in p.calls(r'Vec::(extend|append|extend_from_slice)$|Extend<.*>>?::extend$') if mentions(a_.data[2][1] if len(a_.data[2]) > 1 else ('unk', ''), lambda x: x[0] == 'call' and x[1] == res[1] and x[3] == res[3])]
+                into_one = len(app) == 1 and strip(app[0].data[2][0])[0] == 'ref' and strip(app[0].data[2][0])[1][0][0] == 'local'
+                errs = strip(app[0].data[2][0]) if app else errs
+            chk.ob(rule, 'every method of the mock is verified (complete traversal of fn_mockers) into one error vector', ok and into_one, config=cfg, fn=fn, site='verify-all',
                    what='teardown traversal %s' % names, found={'pipeline': names, 'errors': show(errs)})
     chk.ob(rule, 'teardown verifies the methods', seen, config=cfg, fn=fn, site='verify-all', unrecognised=True, what='no FnMocker::verify call')
     callers = [((f.root if f.kind in ('closure', 'promoted') else f.defp), bb) for f, bb, t in F.callers_of('fn_mocker::FnMocker::verify')]
